@@ -4,7 +4,8 @@ package main
 //
 //	memx <prog> <out> <scratch> <mode>
 //
-// Same program/trace format as memrun, plus
+// Same program/trace format as memrun (WD and T lines included; the BG directive of memrun is not
+// supported here), plus
 //
 //	ALIGN <ms>       sleep until the clock's millisecond-within-the-second equals <ms>
 //	@T+<n> / @T-<n>  as an argument: replaced by the decimal unix time (seconds) at the moment the
@@ -220,6 +221,10 @@ func memxCmd(args []string) error {
 				mgr = server.NewManager(cfg)
 			}
 			fmt.Fprintf(w, "CASE %s %d\n", fs[1], dbs)
+			if mode == "view" {
+				// execStep (mem.go) cancels a command still blocked after watchdogMs
+				fmt.Fprintf(w, "WD %d\n", watchdogMs)
+			}
 			progress.Seek(0, 0)
 			fmt.Fprintf(progress, "%s\n", fs[1])
 		case "ALIGN":
@@ -274,6 +279,12 @@ func memxCmd(args []string) error {
 				fmt.Fprintf(w, "S %d %d %s %s | %s | %d\n", now.Unix(), now.UnixMilli(), fs[1], strings.Join(hexargs, " "), out, time.Now().UnixMilli())
 			} else {
 				fmt.Fprintf(w, "S %d %d %s %s | %s\n", now.Unix(), now.UnixMilli(), fs[1], strings.Join(hexargs, " "), out)
+				// as memrun: the instant a blocking pop returned, checked against the model
+				if len(cmd) > 0 {
+					if n := strings.ToLower(string(cmd[0])); n == "blpop" || n == "brpop" {
+						fmt.Fprintf(w, "T %d\n", time.Now().UnixMilli())
+					}
+				}
 			}
 		case "DUMP":
 			if mode == "tcp" {
